@@ -130,9 +130,10 @@ func (g *GcsEmu) Handler(w http.ResponseWriter, r *http.Request) {
 
 	switch r.Method {
 	case "DELETE":
-		if object == "" && !strings.HasSuffix(r.URL.Path, "/b/"+bucket) {
+		if object == "" && (bucket == "" || !strings.HasSuffix(r.URL.Path, "/b/"+bucket)) {
 			// Not a bucket URL (e.g. ".../b/bucket/o" or ".../b/bucket/o/"): an object delete without an object
-			// name must not be taken for a delete of the whole bucket.
+			// name must not be taken for a delete of the whole bucket. Nor does ".../b/" name a bucket: the file
+			// store would remove its whole directory.
 			g.gapiError(w, http.StatusBadRequest, "unrecognized request")
 			return
 		}
